@@ -338,6 +338,28 @@ def cleanup_in_reraising_handler(ctx: Ctx, f: FunctionInfo, hn: Node) -> bool:
     return False
 
 
+def cleanup_in_flagged_finally(ctx: Ctx, f: FunctionInfo, hn: Node) -> bool:
+    """Is this handler best-effort cleanup (a storage delete whose failure is only logged) that runs in a `finally` under
+    `not <flag>` - the flag form of "cleanup in a handler that re-raises": the finally is entered with the original exception
+    still travelling, the cleanup's own failure must not replace it?"""
+    g = ctx.cfg(f)
+    if not any(fr.kind == "try" and fr.part == "final" for fr in hn.frames):
+        return False
+    t = hn.stmt
+    body_calls = try_body_calls(ctx, f, t)
+    if not body_calls or not all((ctx.eff.storage_op(n) == "delete_file") or (n.callee is not None and n.callee.kind == "prim"
+                                 and n.callee.name.startswith(("logging.", "builtins.", "os.path.exists", "os.remove"))) for n in body_calls):
+        return False
+    if any(ctx.eff.storage_op(n) for n in g.calls() if in_handler(n, hn.ast)):  # type: ignore[arg-type]
+        return False
+    flagged = False
+    for pol, e, _a in facts_at(ctx, f, body_calls[0]):  # (what is known where the guarded cleanup starts)
+        if (pol == "false" and isinstance(e, ast.Name)) or (pol == "true" and isinstance(e, ast.UnaryOp) and isinstance(e.op, ast.Not)
+                                                           and isinstance(e.operand, ast.Name)):
+            flagged = True
+    return flagged
+
+
 def nonnull_inline_return_edges(ctx: Ctx, f: FunctionInfo, target: Node) -> Set[Tuple[int, int]]:
     """Path-sensitivity for the commonest correlation an extracted helper introduces:
 
